@@ -9,6 +9,7 @@ CONSTANTS
   InitStores <- CollStores
   PublishAfterUnlock = FALSE
   CreatedRevalidated = FALSE
+  Equiv = "none"
   SubSer = FALSE
   MayCancel = FALSE
   SnapAtCommit = TRUE
